@@ -125,11 +125,56 @@ def exc_name(e):
     return type(e).__name__ + ("<-" + type(c).__name__ if c is not None else "")
 
 
+class _FrozenMeta(type(dt.datetime)):
+    def __instancecheck__(cls, obj):
+        return isinstance(obj, dt.datetime)
+
+
+def frozen_dt(clock_us):
+    """a stand-in for the `datetime` MODULE as uberjob's modules see it, whose datetime.now() / utcnow() / today() say that it
+    is `clock_us` (an instant) - in the zone of this process, as the real ones do"""
+    import types
+    secs = clock_us / 1e6
+
+    class Frozen(dt.datetime, metaclass=_FrozenMeta):
+        @classmethod
+        def now(cls, tz=None):
+            return dt.datetime.fromtimestamp(secs, tz)
+
+        @classmethod
+        def utcnow(cls):
+            return dt.datetime.fromtimestamp(secs, dt.timezone.utc).replace(tzinfo=None)
+
+        @classmethod
+        def today(cls):
+            return dt.datetime.fromtimestamp(secs)
+
+    ns = types.SimpleNamespace(**{k: getattr(dt, k) for k in dir(dt) if not k.startswith("__")})
+    ns.datetime = Frozen
+    return ns
+
+
 def run_case(case):
     import uberjob
     from uberjob import Plan, Registry, ValueStore
     from uberjob._transformations import caching
     from uberjob.progress._null_progress_observer import NullProgressObserver
+    import uberjob._run as runmod
+    patched = []
+    if case.get("clock") is not None:
+        shim = frozen_dt(case["clock"])
+        for mod in (caching, runmod):
+            if getattr(mod, "dt", None) is dt:
+                patched.append(mod)
+                mod.dt = shim
+    try:
+        return _run_case(case, uberjob, Plan, Registry, ValueStore, caching, NullProgressObserver)
+    finally:
+        for mod in patched:
+            mod.dt = dt
+
+
+def _run_case(case, uberjob, Plan, Registry, ValueStore, caching, NullProgressObserver):
 
     class Store(ValueStore):
         def __init__(self, k, mt, log):
